@@ -24,7 +24,25 @@ type Alarm struct {
 	Msg  string
 }
 
+// ownAlarms counts the alarms raised for the property this run decides (focus).
+func (s *Sim) ownAlarms() int {
+	n := 0
+	for _, a := range s.Alarms {
+		if a.Prop == focus || focus == "" {
+			n++
+		}
+	}
+	return n
+}
+
 func (s *Sim) alarm(prop, clause, msg string) {
+	if prop != focus && focus != "" {
+		// alarms of other properties are counted (they are decided by their own runs), at most a few are kept
+		s.Counts["alarms_other_"+prop]++
+		if len(s.Alarms) > 20 {
+			return
+		}
+	}
 	op := "init"
 	inj := ""
 	if n := len(s.Steps); n > 0 {
@@ -543,7 +561,7 @@ func (s *Sim) checkProvider(v *view) {
 // failure) and runs exactly one resync pass; then evaluates the release-policy reference model.
 func (s *Sim) quiesce() {
 	guard := 0
-	for (s.W.PendingAll() > 0 || len(s.W.Releases) > 0) && guard < 2000 && len(s.Alarms) == 0 {
+	for (s.W.PendingAll() > 0 || len(s.W.Releases) > 0) && guard < 2000 && s.ownAlarms() == 0 {
 		guard++
 		progressed := false
 		for _, r := range []string{"sts", "dp", "pools", "fips", "pods"} {
@@ -562,12 +580,12 @@ func (s *Sim) quiesce() {
 			break
 		}
 	}
-	if len(s.Alarms) > 0 {
+	if s.ownAlarms() > 0 {
 		return
 	}
 	s.stepResync()
 	s.afterStep()
-	if len(s.Alarms) > 0 {
+	if s.ownAlarms() > 0 {
 		return
 	}
 	s.checkQuiescent()
@@ -913,6 +931,9 @@ func (s *Sim) checkBind(p *corev1.Pod, node string, err error, pre map[string]wo
 					s.alarm("C08", "duplicate-ip", fmt.Sprintf("pod %s bound with %v", p.Name, b.IPs))
 				}
 				seen[ip] = true
+				if r.FilterConfGen == s.confGen && contains(r.Offered, b.Node) && !s.Topo.Routable(ip, nd) && !s.reloadDropped[ip] {
+					s.alarm("C08", "ip-not-routable-from-bound-node", fmt.Sprintf("pod %s requested %s and was bound on %s (%s) with %s, which is not routable from there", p.Name, wl.Ranges, b.Node, nd.IP, ip))
+				}
 				if i < len(lists) && !inList(lists[i], ip) {
 					s.alarm("C08", "ip-outside-its-range", fmt.Sprintf("pod %s: IP #%d %s is not in requested range #%d of %s", p.Name, i, ip, i, wl.Ranges))
 				}
